@@ -147,7 +147,7 @@ func (c *Cache) Run(progs []*Prog) ([]Result, error) {
 	return res, nil
 }
 
-var pkgErrRe = regexp.MustCompile(`(?m)^# o/(p[0-9a-zA-Z_]+)`)
+var pkgErrRe = regexp.MustCompile(`(?m)^# o/([0-9a-zA-Z_]+)`)
 
 func goEnv(dir string) []string {
 	env := os.Environ()
